@@ -41,6 +41,31 @@ def main():
                 sys.stdout.write(out[-1500:])
             subprocess.run(["git", "-C", wt, "checkout", "--", "."], check=True)
             subprocess.run(["git", "-C", wt, "clean", "-fdq"], check=True)
+        # seeded changes written by independent sub-agents that the checks are known to detect
+        sdir = os.path.join(V, "seeded")
+        for sid in sorted(os.listdir(sdir)) if os.path.isdir(sdir) else []:
+            mp = os.path.join(sdir, sid, "meta.json")
+            if not os.path.exists(mp) or (only and sid not in only):
+                continue
+            meta = json.load(open(mp))
+            if not meta.get("detected"):
+                continue
+            t0 = time.time()
+            r = subprocess.run(["git", "-C", wt, "apply", os.path.join(sdir, sid, "patch.diff")], capture_output=True, text=True)
+            if r.returncode != 0:
+                results.append(("seed/" + sid, "PATCH-DOES-NOT-APPLY", ""))
+                ok = False
+                continue
+            props = meta.get("detected_under", [meta["property"]])
+            fired = False
+            for pid in props:
+                p = subprocess.run([os.path.join(V, "check"), pid, "--repo", wt], capture_output=True, text=True, env=env)
+                fired = fired or p.returncode == 1
+            results.append(("seed/" + sid, "fires" if fired else "MISSED", "%.0fs" % (time.time() - t0)))
+            if not fired:
+                ok = False
+            subprocess.run(["git", "-C", wt, "checkout", "--", "."], check=True)
+            subprocess.run(["git", "-C", wt, "clean", "-fdq"], check=True)
         bdir = os.path.join(V, "mutants", "benign")
         props = sorted(c["property_id"] for c in json.load(open(os.path.join(V, "MANIFEST.json")))["checks"])
         for fn in sorted(os.listdir(bdir)):
